@@ -3,6 +3,7 @@ package main
 import (
 	"bytes"
 	"fmt"
+	"regexp"
 	"strconv"
 
 	"github.com/bluenviron/mediamtx/internal/protocols/moq/varint"
@@ -49,7 +50,25 @@ type Msg struct {
 	Stream   int  // moq: 0 = unidirectional stream, 1 = bidirectional stream
 	Covered  bool // the single-message mutants of this message are enumerated under another seed with the same prefix
 	PauseMs  int  // pause before sending (ordering between connections)
-	WaitResp bool // before sending, wait (bounded) until the server has answered something on this connection
+	WaitResp bool // before sending, wait (bounded) until the server has answered something new on this connection (or closed it)
+	Alts     []Alt // structure-aware single deviations: complete alternative encodings of this message
+}
+
+// Alt is one structure-aware deviation of a message: the message encoded again with ONE element of its structure
+// (an AMF0 value, an argument, a list element) replaced, removed or repeated.
+type Alt struct {
+	Name string
+	Data []byte
+}
+
+// Echo makes a client value that a real client takes from the server's answers (RTSP session id, HLS playlist and
+// segment names, WHEP session URL): every occurrence of Placeholder in a message is replaced, AFTER the mutation has
+// been applied, by the first capture group of the LAST match of Re in what the server has sent on that connection
+// so far (by Default when there is no match).
+type Echo struct {
+	Placeholder string
+	Re          *regexp.Regexp
+	Default     string
 }
 
 // Seed is one valid unauthenticated exchange with one listener.
@@ -63,6 +82,26 @@ type Seed struct {
 	Msgs      []Msg
 	Thorough  bool // only in the thorough tier
 	Cookie    bool // messages contain cookiePlaceholder, replaced per exchange
+	Open      bool // delivered to a worker of the open world (see workerKind)
+	Light     bool // quick tier: only the structure-level deviations (alternatives, header lines, fields, repeated and swapped messages), no byte-level ones
+	Dup       bool // also enumerate "message i sent twice in a row"
+	Streams   bool // the valid exchange ends in a state in which the server streams to the client until the client goes away
+	Echo      []Echo
+}
+
+// kind returns the worker configuration the seed needs. The thorough tier runs every worker with all TLS
+// listeners; the quick tier enables the RTSPS listener only where a seed needs it.
+func (s *Seed) kind(thorough bool) workerKind {
+	k := workerKind{Open: s.Open}
+	switch {
+	case thorough:
+		k.TLS = 2
+	case s.Port == pRTSPS:
+		k.TLS = 1
+	case s.Transport == tTLS || s.Transport == tMoQ || s.Transport == tMoQW:
+		k.TLS = 2
+	}
+	return k
 }
 
 const cookiePlaceholder = "ckXXXXXXXXXX"
@@ -77,15 +116,18 @@ const (
 	mHdrEmpty
 	mHdrDel
 	mSwap
+	mAlt
+	mDup
 )
 
-var mutNames = []string{"seed", "trunc", "byte", "field", "hdrdup", "hdrempty", "hdrdel", "swap"}
+var mutNames = []string{"seed", "trunc", "byte", "field", "hdrdup", "hdrempty", "hdrdel", "swap", "alt", "dup"}
 
 // Mut is one single deviation from a seed.
 type Mut struct {
 	Kind int
 	Msg  int    // message index
-	Off  int    // trunc: number of bytes kept; byte: offset; field/hdr: index of the field/header; swap: the other message
+	Off  int    // trunc: number of bytes kept; byte: offset; field/hdr: index of the field/header; swap: the other message; alt: index of the alternative
+	Name string // alt: name of the alternative
 	B    byte   // byte: value
 	Rep  []byte // field: replacement bytes
 }
@@ -108,6 +150,10 @@ func (m Mut) String() string {
 		return fmt.Sprintf("m%d:hdr%d:del", m.Msg, m.Off)
 	case mSwap:
 		return fmt.Sprintf("swap(m%d,m%d)", m.Msg, m.Off)
+	case mAlt:
+		return fmt.Sprintf("m%d:alt:%s", m.Msg, m.Name)
+	case mDup:
+		return fmt.Sprintf("m%d:twice", m.Msg)
 	}
 	return "?"
 }
@@ -151,7 +197,7 @@ func (e *Exchange) Materialize(patch func(i int, d []byte) []byte) []wire {
 		if patch != nil {
 			data = patch(i, data)
 		}
-		if m.Kind != mSeed && m.Kind != mSwap && i == m.Msg {
+		if m.Kind != mSeed && m.Kind != mSwap && m.Kind != mDup && i == m.Msg {
 			mm := *msg
 			mm.Data = data
 			data = applyMut(&mm, m)
@@ -166,6 +212,9 @@ func (e *Exchange) Materialize(patch func(i int, d []byte) []byte) []wire {
 			w.Conn, w.Stream, w.Pause, w.WaitResp = p.Conn, p.Stream, p.PauseMs, p.WaitResp
 		}
 		out = append(out, w)
+		if m.Kind == mDup && i == m.Msg {
+			out = append(out, w)
+		}
 		if m.Kind == mTrunc && i == m.Msg {
 			break
 		}
@@ -208,6 +257,8 @@ func applyMut(msg *Msg, m Mut) []byte {
 		o = append(o, d[:h.Start]...)
 		o = append(o, d[h.End:]...)
 		return o
+	case mAlt:
+		return msg.Alts[m.Off].Data
 	}
 	return d
 }
@@ -328,14 +379,21 @@ func varintEncodeN(v uint64, n int) []byte {
 }
 
 // enumerate every single-deviation mutant of a seed over the byte alphabet.
-func enumerate(s *Seed, alphabet []byte, opaqueStride int, f func(Mut)) {
+func enumerate(s *Seed, alphabet []byte, opaqueStride int, quick bool, f func(Mut)) {
 	f(Mut{Kind: mSeed})
+	light := s.Light && quick
 	for i := range s.Msgs {
 		msg := &s.Msgs[i]
 		if msg.Covered {
 			continue
 		}
+		for ai, a := range msg.Alts {
+			f(Mut{Kind: mAlt, Msg: i, Off: ai, Name: a.Name})
+		}
 		n := len(msg.Data)
+		if light {
+			n = 0
+		}
 		// truncation at every offset (0 = the connection is closed after the previous message)
 		for k := 0; k < n; k++ {
 			if opaqueStride > 1 && msg.opaque(k) && k%opaqueStride != 0 {
@@ -365,6 +423,13 @@ func enumerate(s *Seed, alphabet []byte, opaqueStride int, f func(Mut)) {
 			f(Mut{Kind: mHdrDup, Msg: i, Off: hi})
 			f(Mut{Kind: mHdrEmpty, Msg: i, Off: hi})
 			f(Mut{Kind: mHdrDel, Msg: i, Off: hi})
+		}
+	}
+	if s.Dup {
+		for i := range s.Msgs {
+			if !s.Msgs[i].Covered {
+				f(Mut{Kind: mDup, Msg: i})
+			}
 		}
 	}
 	for i := range s.Msgs {
